@@ -534,6 +534,7 @@ class RemoteWorker(Worker, metaclass=RemoteWorkerMeta):
             if registry is not None:
                 registry.append(self)
             self._child.start()
+            self._pid = self._child.pid # until now it was the pid of the parent, nobody should ever signal that one
             self._dead = False
 
             # Clean up things which are only needed in the backend
